@@ -10,4 +10,5 @@ func init() {
 	register(C01{})
 	register(C02{})
 	register(C03{})
+	register(C05{})
 }
